@@ -27,6 +27,9 @@ def strategy_table(f):
         if len(body) == 1 and isinstance(body[0], ast.Assign) and isinstance(body[0].value, ast.Attribute):
             var = ast.unparse(body[0].targets[0])
             table[kind] = body[0].value.attr
+        elif len(body) == 1 and isinstance(body[0], ast.Return) and isinstance(body[0].value, ast.Attribute):
+            var = "<return>"
+            table[kind] = body[0].value.attr
         elif shapes.raises_unconditionally(body):
             table[kind] = "raise"
         else:
@@ -50,6 +53,18 @@ def check(prog, run):
     ex = prog.get_func(EXECUTE, "execute")
     run.looked_at(ex)
     table, var, default = strategy_table(ex)
+    if table is None:
+        # the dispatch may live in a helper whose result execute() binds and calls
+        for n in own_nodes(ex.node):
+            if isinstance(n, ast.Assign) and len(n.targets) == 1 and isinstance(n.targets[0], ast.Name) and isinstance(n.value, ast.Call):
+                callee = prog.resolve_call(ex, n.value)
+                callee = callee[0] if isinstance(callee, (list, tuple)) and callee else callee
+                if callee is not None and hasattr(callee, "node"):
+                    t2, v2, d2 = strategy_table(callee)
+                    if t2 is not None and v2 == "<return>":
+                        run.looked_at(callee)
+                        table, var, default = t2, n.targets[0].id, d2
+                        break
     if table is None:
         raise AnalysisError("C09.S1: operation-kind dispatch not found in execute()")
     want = {"query": "execute_fields", "mutation": "execute_fields_serially"}
@@ -193,19 +208,22 @@ def _s4(prog, run):
                        "whole sub-selection completed", 1)
     f = prog.get_func(EXE, "Executor.resolve_field")
     run.looked_at(f)
+    from ..canon import Canon, calls
+    cn = Canon(f.node)
     rets = []
     for n in own_nodes(f.node):
-        if isinstance(n, ast.Return) and isinstance(n.value, ast.Call) and any(
-                isinstance(x, ast.Call) and isinstance(x.func, ast.Name) and x.func.id == "resolver" for x in ast.walk(n.value)):
-            rets.append(n)
+        if isinstance(n, ast.Return) and n.value is not None:
+            v = cn.expr(n.value)
+            if isinstance(v, ast.Call) and any(" ".join(ast.unparse(x.func).split()).startswith("self.field_resolver(") for x in calls(v)):
+                rets.append((n, v))
     if len(rets) != 1:
         raise AnalysisError("C09.S4: resolver return site not found in Executor.resolve_field")
-    v = rets[0].value
+    ret, v = rets[0]
     outer = ast.unparse(v.func)
     r.instance("resolve_field returns `%s(...)`" % outer)
     inner_ok = outer.endswith(".unwrap_value") and v.args and isinstance(v.args[0], ast.Call) and ast.unparse(v.args[0].func).endswith(".map_value")
     if not inner_ok:
-        run.report(r, "%s:Executor.resolve_field:not-unwrapped" % EXE, f.where(rets[0]),
+        run.report(r, "%s:Executor.resolve_field:not-unwrapped" % EXE, f.where(ret),
                    "resolve_field returns `%s(...)`: the completed value (which wraps the pending sub-selection) is not unwrapped, so "
                    "in the serial strategy the next top-level field starts while the previous field's sub-fields are still running" % outer)
 
@@ -294,13 +312,15 @@ def check_deferred_conservation(prog, run, rule_id):
         r.instance("Executor.%s: %d return paths" % (mname, len(rets)))
         if not rets:
             raise AnalysisError("%s: Executor.%s has no return path" % (rule_id, mname))
+        from ..canon import Canon
+        cn = Canon(m.node)
         for st, env in rets:
-            names = [c.func.attr for c in env.get(boolx.CALLS, ()) if isinstance(c.func, ast.Attribute) and "runtime" in ast.unparse(c.func.value)]
+            fts = [cn.func_text(c) for c in env.get(boolx.CALLS, ())]
+            names = [t.rsplit(".", 1)[-1] for t in fts if ".runtime." in t]
             v = st.value
             if isinstance(v, ast.Name):
-                binds = [x.value for x in env.get(boolx.STMTS, ()) if isinstance(x, ast.Assign) and any(isinstance(t, ast.Name) and t.id == v.id for t in x.targets)]
-                v = binds[-1] if binds else v
-            direct = isinstance(v, ast.Call) and isinstance(v.func, ast.Attribute) and "runtime" in ast.unparse(v.func.value)
+                v = boolx.path_value(env.get(boolx.STMTS, ()), st, v, {})
+            direct = isinstance(v, ast.Call) and ".runtime." in cn.func_text(v)
             if need not in names or not direct:
                 cond = ", ".join("%s=%s" % kv for kv in sorted(env.items()) if kv[0] not in (boolx.CALLS, boolx.STMTS))
                 run.report(r, "%s:Executor.%s:returns-ungathered" % (EXE, mname), m.where(st),
@@ -317,17 +337,15 @@ def check_guarded_flatten(prog, run, rule_id):
                           "one error) instead of escaping the whole request under the deferred runtimes", 1)
     f = prog.get_func(EXE, "Executor.resolve_field")
     run.looked_at(f)
-    guarded = [n for n in own_nodes(f.node) if isinstance(n, ast.Call) and isinstance(n.func, ast.Attribute) and n.func.attr == "map_value"
+    from ..canon import Canon, calls, attr_call
+    cn = Canon(f.node)
+    guarded = [n for n in own_nodes(f.node) if isinstance(n, ast.Call) and cn.func_text(n).endswith(".map_value")
                and any(k.arg == "else_" for k in n.keywords)]
     if len(guarded) != 1:
         raise AnalysisError("%s: expected one else_-guarded map_value in Executor.resolve_field, found %d" % (rule_id, len(guarded)))
-    arg = guarded[0].args[0] if guarded[0].args else None
-    if isinstance(arg, ast.Name):
-        binds = [x.value for x in own_nodes(f.node) if isinstance(x, ast.Assign) and len(x.targets) == 1 and isinstance(x.targets[0], ast.Name)
-                 and x.targets[0].id == arg.id]
-        arg = binds[-1] if len(binds) == 1 else arg
-    flattened = isinstance(arg, ast.Call) and isinstance(arg.func, ast.Attribute) and arg.func.attr == "unwrap_value" and any(
-        isinstance(x, ast.Call) and isinstance(x.func, ast.Name) and x.func.id == "resolver" for x in ast.walk(arg))
+    arg = cn.expr(guarded[0].args[0]) if guarded[0].args else None
+    flattened = arg is not None and attr_call(arg, "unwrap_value") and any(
+        " ".join(ast.unparse(x.func).split()).startswith("self.field_resolver(") for x in calls(arg))
     r.instance("guarded map_value receives `%s`" % (" ".join(ast.unparse(arg).split())[:70] if arg is not None else None))
     if not flattened:
         run.report(r, "%s:Executor.resolve_field:guard-sees-unflattened-result" % EXE, f.where(guarded[0]),
